@@ -136,6 +136,8 @@ func (g Group) ValidatePausable() error {
 	switch g.State {
 	case GroupClosed:
 		return ErrGroupClosed
+	case GroupInsufficientFunds:
+		return ErrGroupClosed
 	case GroupPaused:
 		return ErrGroupPaused
 	default:
@@ -147,6 +149,8 @@ func (g Group) ValidatePausable() error {
 func (g Group) ValidateStartable() error {
 	switch g.State {
 	case GroupClosed:
+		return ErrGroupClosed
+	case GroupInsufficientFunds:
 		return ErrGroupClosed
 	case GroupOpen:
 		return ErrGroupOpen
